@@ -2,6 +2,9 @@
 
 Case kinds (protocol: hooks/banyand/internal/verifdrv/c19/main.go)
   tbl  one real measure tsTable; ops b / f / m<i>+<j> / s[@p=<op>]*[!p]
+  stb  the same on one real stream tsTable (with its real element index)
+  ttb  the same on one real trace tsTable with one real secondary index (sidx); ttbx = operations placed between
+       the pin of the core snapshot and the pin of the index (targets finding F19)
   db   a real storage.TSDB over real measure tables; ops w<d><h> f<d><h> m<d><h> c<d> h<d> r<d> x<d> X<d> j<d> s...
 
 The oracle below is a plain Python reference of *what the user may observe* (which batches were flushed when;
@@ -82,7 +85,25 @@ class TblRef:
         # m: content-neutral
 
 
+STATS = {}
+
+
+def stat(k, n=1):
+    STATS[k] = STATS.get(k, 0) + n
+
+
 def tbl_oracle(line, out):
+    v = _tbl_oracle(line, out)
+    if v is not None and v[0] == "violation" and v[1].startswith("[F19]"):
+        return ("known", "F19", v[1][5:].strip())
+    return v
+
+
+def _tbl_oracle(line, out):
+    # stb = the stream engine: the destination exists beforehand (it receives the element index first) and a table
+    # without file parts still reports success
+    stream = line.startswith("stb")
+    trace = line.startswith("ttb")
     ops = line.split()[1:]
     recs = out.split(" | ")
     ref = TblRef()
@@ -108,10 +129,22 @@ def tbl_oracle(line, out):
                 ref.apply(h)
                 states.append(list(ref.flushed))
         injected = fail is not None and fail in fired and fail < len(pin_disk)
+        early_pub = False
+        if trace:
+            # calls: 0 = mkdir of the index directory, 1..n = index links, n+1..2n = core links, 2n+1 = manifest
+            kinds = r.get("kinds", "-")
+            injected = fail is not None and fail in fired and kinds != "-" and kinds[fired.index(fail)] == "l"
+            n = len(pin_disk)
+            early_pub = any(h[0] in "fm" for p in fired if p <= n for h in hooks.get(p, []))
         ret = r["ret"]
+        stat("tbl-snapshot:ret=" + ret)
+        if "x" in r.get("hooks", ""):
+            stat("tbl-snapshot:pinned-parts-merged-away-during-call")
+        if len(states) > 1 and states[-1] != states[0]:
+            stat("tbl-snapshot:flush-during-call")
         if not pin:
             # empty table: ErrNoCurrentSnapshot, nothing written
-            if ret != "N" or r["dst"] != "0":
+            if ret != "N" or (r["dst"] != "0" and not stream) or r["dirs"] != "-" or r["man"] != "none":
                 return ("violation", "snapshot of an empty table: ret=%s dst=%s" % (ret, r["dst"]))
             continue
         if ret == "N":
@@ -124,8 +157,15 @@ def tbl_oracle(line, out):
             continue
         if injected:
             return ("violation", "injected hard-link failure was swallowed: ret=%s" % ret)
+        if not pin_disk and trace:
+            if ret != "T" or r["dst"] != "1" or r["dirs"] != "-" or r["man"] != "none" or r["open"] != "ok" or r["rows"] != "-":
+                return ("violation", "trace snapshot of a table without file parts: " + recs[ri - 1][:200])
+            continue
         if not pin_disk:
-            if ret != "F" or r["dst"] != "0":
+            if stream:
+                if ret != "T" or r["dst"] != "1" or r["dirs"] != "-" or r["man"] != "none" or r["open"] != "ok" or r["rows"] != "-":
+                    return ("violation", "stream snapshot of a table without file parts: " + recs[ri - 1][:200])
+            elif ret != "F" or r["dst"] != "0":
                 return ("violation", "snapshot of a table without file parts: ret=%s dst=%s" % (ret, r["dst"]))
             continue
         if ret != "T" or r["dst"] != "1":
@@ -135,7 +175,10 @@ def tbl_oracle(line, out):
         listed, dirs = ids(r["man"]), ids(r["dirs"])
         for i in listed:
             if i not in dirs and i not in pin_mem:
-                return ("violation", "manifest lists part %s which is not in the copy (dirs=%s)" % (i, r["dirs"]))
+                return ("violation", ("[F19] " if (trace and early_pub) else "") +
+                        "manifest lists part %s which is not in the copy (dirs=%s)" % (i, r["dirs"]))
+            if i not in dirs:
+                stat("tbl-snapshot:manifest-names-in-memory-part")
         if r["inc"] != "-":
             return ("violation", "incomplete part directories in the copy: " + r["inc"])
         for i in dirs:
@@ -148,8 +191,19 @@ def tbl_oracle(line, out):
         if sorted(ids(r["oparts"]), key=int) != sorted([i for i in listed if i in dirs], key=int):
             return ("violation", "opened copy uses parts %s, manifest∩present = %s" % (r["oparts"], listed))
         want = [rows_str(s) for s in states]
+        tag = "[F19] " if (trace and early_pub) else ""
         if r["rows"] not in want:
-            return ("violation", "copy content is not the flushed data of any state during the call: got %s, states %s" % (r["rows"], want))
+            return ("violation", tag + "copy content is not the flushed data of any state during the call: got %s, states %s" % (r["rows"], want))
+        if trace and r.get("idx") != r["dirs"]:
+            # every batch of the driver is indexed, so every core file part has an index part with the same id
+            return ("violation", tag + "the copy's secondary-index parts (%s) are not those of its core parts (%s): "
+                                       "they belong to another state" % (r.get("idx"), r["dirs"]))
+        if trace:
+            vals = sorted(int(x.split(".")[2]) for x in ids(r["rows"]))
+            ik = sorted(int(x) for x in ids(r["ikeys"])) if r["ikeys"] not in ("none", "err") else []
+            if r["ikeys"] == "err" or ik != vals:
+                return ("violation", tag + "the opened copy holds traces %s but its ordered index holds entries for %s "
+                                           "(index parts in the copy: %s, core parts: %s)" % (vals, ik, r.get("idx"), r["dirs"]))
     f = kv(recs[-1]) if recs[-1].startswith("F ") else None
     if f is None:
         return ("violation", "no final record: " + out[:200])
@@ -157,6 +211,10 @@ def tbl_oracle(line, out):
         return ("violation", "a referenced file part has no directory: " + f["refs"])
     if f["rows"] != rows_str(ref.flushed + ref.mem):
         return ("violation", "source table disturbed: holds %s, expected %s" % (f["rows"], rows_str(ref.flushed + ref.mem)))
+    if trace and ref.flushed + ref.mem:
+        vals = sorted(v for k in ref.flushed + ref.mem for (_, _, v) in rows_of(k))
+        if sorted(int(x) for x in ids(f.get("ikeys", "-")) if x != "none") != vals:
+            return ("violation", "source index disturbed: %s" % f.get("ikeys"))
     return None
 
 
@@ -302,6 +360,12 @@ def db_oracle(line, out):
             return ("violation", "segment states after the snapshot are %s, expected %s (closed segments must not be "
                                  "reopened, references must be released)" % (after, ref.states()))
         injected = fail is not None and fail in fired and kinds != "-" and kinds[fired.index(fail)] == "l"
+        stat("db-snapshot:ret=" + ret)
+        for d, st0 in start.items():
+            if st0[0] and not st0[1] and not st0[2]:
+                stat("db-snapshot:idle-closed-segment-visited")
+            if st0[1] and st0[0]:
+                stat("db-snapshot:flagged-segment-still-listed")
         if ret == "E":
             if not injected:
                 return ("violation", "TakeFileSnapshot failed although no fault was injected")
@@ -318,12 +382,16 @@ def db_oracle(line, out):
             continue
         if dst != "1" or rest == "none":
             return ("violation", "ret=true but no destination")
-        mm = re.match(r"(.*?) open=(\S+)(?: q=(\S+))?$", rest)
+        mm = re.match(r"(.*?) open=(\S+)(?: q=(\S+))? bk=(\S+)$", rest)
         if not mm:
             return ("violation", "unparsable copy: " + rest[:200])
-        copy_s, opn, q = mm.groups()
+        copy_s, opn, q, bk = mm.groups()
         if opn != "ok":
             return ("violation", "the copy does not open with OpenTSDB: " + opn)
+        if bk != "same":
+            return ("violation", "the copy, uploaded by backupSnapshot and downloaded by restoreByName, does not open to "
+                                 "the same content: " + bk[:300])
+        stat("db-snapshot:backup+restore-roundtrip")
         got = {}
         for part in copy_s.split(";"):
             sm = _SEG.fullmatch(part)
@@ -434,7 +502,67 @@ def gen_tbl(rng):
             ops.append(tok)
         else:
             ops.append(maint())
-    return "tbl " + " ".join(ops)
+    return ("stb " if rng.random() < 0.3 else "tbl ") + " ".join(ops)
+
+
+def gen_ttb(rng):
+    """like gen_tbl, but the file-system calls of the trace procedure are: 0 mkdir(index dir), 1..n index links,
+    n+1..2n core links, 2n+1 manifest. `ttb`: hooks only at calls > n (after the secondary index is pinned);
+    `ttbx`: a flush or merge at a call <= n (between the pin of the core snapshot and the pin of the index) -
+    targets F19. The part structure is simulated only to aim; the check never relies on it."""
+    target = rng.random() < 0.4
+    parts = []
+    ops = []
+
+    def maint(force=None):
+        nonlocal parts
+        disk = [i for i, m in enumerate(parts) if not m]
+        r = rng.random()
+        if force == "b" or (force is None and (r < 0.45 or not parts)):
+            parts.append(True)
+            return "b"
+        if force == "f" or (force is None and r < 0.75):
+            parts = [False] * len(parts)
+            return "f"
+        nd = len(disk)
+        if nd >= 2:
+            k = rng.randint(2, min(nd, 4))
+            pos = sorted(rng.sample(range(nd), k))
+            keep = [m for i, m in enumerate(parts) if m or disk.index(i) not in pos]
+            parts = keep + [False]
+            return "m" + "+".join(map(str, pos))
+        parts.append(True)
+        return "b"
+
+    for _ in range(rng.choice([2, 3, 4, 6, 8])):
+        ops.append(maint())
+    for _ in range(rng.randint(1, 3)):
+        if not any(not m for m in parts):
+            ops += [maint("b"), maint("f")]
+        if target and rng.random() < 0.6 and not any(parts) and sum(1 for m in parts if not m) < 2:
+            ops.append(maint("b"))
+        nd = sum(1 for m in parts if not m)
+        tok = "s"
+        fail = None
+        if rng.random() < 0.2:
+            fail = rng.randint(1, 2 * nd)
+        k = rng.random()
+        if k < 0.75:
+            for _ in range(rng.randint(1, 3)):
+                p = rng.randint(0, nd) if target else rng.randint(nd + 1, 2 * nd + 1)
+                if fail is not None and p > fail:
+                    continue
+                if target:
+                    op = maint("f") if any(parts) else maint()
+                else:
+                    op = maint()
+                tok += "@%d=%s" % (p, op)
+        if fail is not None:
+            tok += "!%d" % fail
+        ops.append(tok)
+        for _ in range(rng.randint(0, 3)):
+            ops.append(maint())
+    return ("ttbx " if target else "ttb ") + " ".join(ops)
 
 
 def gen_db(rng):
@@ -443,6 +571,7 @@ def gen_db(rng):
     days = [0, 1] if rng.random() < 0.5 else [0, 1, 2]
     written = set()
     snaps = 0
+    pending = []
 
     def maint(in_hook=False):
         r = rng.random()
@@ -457,6 +586,8 @@ def gen_db(rng):
         if r < 0.64:
             return "m%d%d" % (d, h)
         if r < 0.80:
+            if rng.random() < 0.3:
+                pending.append("j%d" % d)
             return "c%d" % d
         if r < 0.86:
             return "h%d" % d
@@ -483,31 +614,63 @@ def gen_db(rng):
             ops.append(tok)
         else:
             ops.append(maint())
+            ops.extend(pending)
+            del pending[:]
     return "db " + " ".join(ops)
 
 
 class C19(vlib.Spec):
     prop = "C19"
     lean_modules = ["Banyan.Props.C19", "Banyan.Tie.C19"]
-    theorems = []
+    theorems = ["Banyan.C19." + t for t in [
+        "table_snapshot_consistent", "snapshot_image_recovers", "table_snapshot_point_in_time", "flushed_is_prefix",
+        "table_snapshot_prefix", "table_snapshot_rely_guarantee", "table_snapshot_nothing_to_copy",
+        "failed_snapshot_removed", "failed_snapshot_unpins", "injected_fault_fails",
+        "segment_snapshot_no_reopen", "deleted_segment_skipped", "closed_copy_recovers_as_source",
+        "segment_snapshot_open", "shardOK_opens", "db_snapshot_opens", "db_failed_snapshot_removed",
+        "reachable_inv", "reachable_wf"]] + ["Banyan.Tie.C19." + t for t in ['copySegmentsTouchesNothing', 'dbErrorRemovesDst', 'dbStopsAtFirstError', 'dbUsesCopySegments', 'measureCurrentSnapshotIncRefUnderRLock', 'measureErrorRemovesDst', 'measureLinkErrorReturns', 'measureLoopSkipsMemParts', 'measureManifestAfterLinks', 'measureManifestNamedByEpoch', 'measureManifestNamesAllParts', 'measureNilSnapshotReturnsErrNoCurrentSnapshot', 'measureNoDiskPartsNoManifest', 'measurePartDirRemovedOnlyAtRefZeroAndRemovable', 'measurePinThenDeferUnpinBeforeLinks', 'segCloseIfIdleRequiresRefZero', 'segClosedHardLinksWithFilter', 'segClosedLinkedUnderLock', 'segDecRefDeletesAtLastRelease', 'segDeletedSkipped', 'segLockFirst', 'segOpenIteratesShardList', 'segOpenPinsWithoutReopen', 'segOpenSkipsEmptyShard', 'segSnapshotNeverReopens', 'streamCurrentSnapshotIncRefUnderRLock', 'streamErrorRemovesDst', 'streamLinkErrorReturns', 'streamLoopSkipsMemParts', 'streamManifestAfterLinks', 'streamManifestNamedByEpoch', 'streamManifestNamesAllParts', 'streamNilSnapshotReturnsErrNoCurrentSnapshot', 'streamNoDiskPartsNoManifest', 'streamPartDirRemovedOnlyAtRefZeroAndRemovable', 'streamPinThenDeferUnpinBeforeLinks', 'traceCurrentSnapshotIncRefUnderRLock', 'traceErrorRemovesDst', 'traceLinkErrorReturns', 'traceLoopSkipsMemParts', 'traceManifestAfterLinks', 'traceManifestNamedByEpoch', 'traceManifestNamesAllParts', 'traceNilSnapshotReturnsErrNoCurrentSnapshot', 'traceNoDiskPartsNoManifest', 'tracePartDirRemovedOnlyAtRefZeroAndRemovable', 'tracePinThenDeferUnpinBeforeLinks', 'closedExcludes_tie']]
     go_driver = "c19"
     lean_driver = "C19"
-    counts = {"quick": 900, "thorough": 12000}
-    trusted_base = []
-    assumptions = []
-    rule = ""
+    counts = {"quick": 700, "thorough": 12000}
+    trusted_base = [
+        "Lean 4.33.0 kernel",
+        "correspondence check: Go driver hooks/banyand/internal/verifdrv/c19 (real measure tsTable + real storage.TSDB on "
+        "scratch directories, real initTSTable/OpenTSDB on every copy) vs lean_exe drv_c19, line-exact",
+        "shape extractor tools/extract.d/C19.py (step order of TakeFileSnapshot in measure/stream/trace, snapshotInto, "
+        "database.TakeFileSnapshot, includeInClosedSnapshot exclusion list)",
+        "op-level granularity: each introduce/flush/merge/close/delete step and each sub-step of the snapshot is atomic "
+        "(sync.RWMutex / atomic semantics; C05 and C14 argue this level); interleavings inside one CreateHardLink "
+        "directory walk are excluded by the pin, not exhibited",
+        "bluge (series index) Backup/TakeFileSnapshot and its crash/open behaviour: trusted, only openability is observed",
+        "OS file system: hard links share immutable content; os.Link/filepath.Walk semantics",
+        "pbgen-regenerated protobuf Go code",
+    ]
+    assumptions = [
+        "content of a part = list of batch ids (rows of one batch are written and read together; C01/C03)",
+        "part directories are complete once published (flush/merge atomic at op level; crash states are C04)",
+        "reference counts modelled by counting live snapshot objects; compared with the real partWrapper.ref / snapshot.ref "
+        "at every observation point",
+        "stream and trace TakeFileSnapshot are tied by shape facts only (same step order); the dynamic tie runs measure",
+    ]
+    rule = ("tbl: random histories of 3-16 ops over one real measure tsTable (b=introduce batch, f=flush, m=merge of 2-4 file "
+            "parts), ~28% snapshots; 55% of snapshots interleave 1-4 maintenance ops at the file-system calls of "
+            "TakeFileSnapshot (after pin / between links / before manifest), 15-30% inject a hard-link failure. "
+            "db: random histories of 4-20 ops over a real TSDB (2-3 daily segments x 2 shards): write/flush/merge, "
+            "idle-close, hold/release, retention delete, delete-flag, planted junk; snapshots with interleaved ops and faults. "
+            "non-trivial = distinct case with at least one snapshot")
 
     def cases(self, rng, n):
         out = []
         for i in range(n):
-            out.append(gen_tbl(rng) if i % 5 < 3 else gen_db(rng))
+            k = i % 10
+            out.append(gen_ttb(rng) if k == 9 or k == 4 else (gen_tbl(rng) if k in (0, 1, 2, 5, 7) else gen_db(rng)))
         return out
 
     def oracle(self, line, g):
         if g.startswith("PANIC") or g.startswith("CRASH") or " PANIC " in g:
             return ("violation", "implementation crashed: " + g[:300])
         try:
-            if line.startswith("tbl"):
+            if line[:3] in ("tbl", "stb", "ttb"):
                 return tbl_oracle(line, g)
             if line.startswith("db"):
                 return db_oracle(line, g)
@@ -516,7 +679,24 @@ class C19(vlib.Spec):
         return None
 
     def compare(self, line, g, l):
-        return re.sub(r" (kinds|at)=\S+", "", g) == l
+        g = re.sub(r" (kinds|at)=\S+", "", g)
+        if line.startswith("ttb") and self.has_early(line, g):
+            # the model is of the repaired procedure (operations arriving between the two pins wait for the
+            # publication section to end); the reference counts observed *at* those early calls differ on purpose
+            g, l = re.sub(r" hooks=\S+", "", g), re.sub(r" hooks=\S+", "", l)
+        return g == l
+
+    @staticmethod
+    def has_early(line, g):
+        """trace: does some snapshot of the case place an operation at a call <= n (n = file parts pinned)?"""
+        toks = [t for t in line.split()[1:] if t.startswith("s")]
+        recs = [r for r in g.split(" | ") if r.startswith("S ")]
+        for t, r in zip(toks, recs):
+            m = re.search(r" pin=(\S+)", r)
+            n = len([x for x in ids(m.group(1)) if not x.endswith("m")]) if m else 0
+            if any(p <= n for p in parse_snap(t)[0]):
+                return True
+        return False
 
     def kind(self, line):
         f = line.split()
@@ -529,7 +709,21 @@ class C19(vlib.Spec):
             k += "+idle-closed"
         return k
 
+    def extra(self, R, tier, rng):
+        for k, v in sorted(STATS.items()):
+            R.count(k, v)
+
     def shrink(self, line, still_fails):
+        """drop operations one at a time while the *same kind* of oracle failure remains"""
+        exe = os.path.join(vlib.BUILD, "bin", "drv_c19")
+
+        def verdict(ln):
+            v = self.oracle(ln, _orig_run_lines(exe, [ln], env=vlib.goenv())[0])
+            return v[1][:28] if v and v[0] == "violation" else None
+
+        key = verdict(line)
+        if key is None:
+            return line
         f = line.split()
         head, ops = f[0], f[1:]
         i = 0
@@ -537,7 +731,7 @@ class C19(vlib.Spec):
         while i < len(ops) and budget > 0:
             cand = ops[:i] + ops[i + 1:]
             budget -= 1
-            if any(t.startswith("s") for t in cand) and still_fails(head + " " + " ".join(cand)):
+            if any(t.startswith("s") for t in cand) and verdict(head + " " + " ".join(cand)) == key:
                 ops = cand
             else:
                 i += 1
